@@ -7,8 +7,11 @@ from t2 import sets
 from t2.cases import UNROLL
 
 
-def programs_for(tier, seed, pred=None, extra=()):
-    ps = sets.quick_programs(seed) if tier == "quick" else sets.thorough_programs(seed)
+def programs_for(tier, seed, pred=None, extra=(), full=False):
+    if tier == "quick":
+        ps = sets.quick_programs(seed) if full else sets.reduced_programs(seed)
+    else:
+        ps = sets.thorough_programs(seed)
     if pred is not None:
         ps = [p for p in ps if pred(p)]
     ps = sets.dedupe(list(ps) + list(extra))
